@@ -32,7 +32,10 @@ def scenario(rng, flavour):
         "where": ("through", "at", "behind", "behind"),
         "prs": (0.0,),
         "rs": (0.0,),
+        "p_txn_propagate": 0.3 if flavour == "C02" else 0.0,
     }
+    if flavour == "C02":
+        mix["w_txn"] = 2.5
     strat_kw = {"max_live_trade_count": rng.choice([1, 3, 30]), "max_order_exposure": 500, "max_selection_exposure": 5000}
     n_strat = rng.choice([1, 1, 2])
     clients = [{"bpe": True}]
